@@ -46,9 +46,16 @@ def mat_of(p):
     return np.array(rows, dtype=float)
 
 
-def make_op(op, q=None, free=None):
-    """the real Operation object of a spec op (q / free needed only for measured / free parameters)"""
+def make_op(op, q=None, free=None, op_cache=None):
+    """the real Operation object of a spec op (q / free needed only for measured / free parameters).
+    `op_cache` (a dict): operations with equal class, numeric parameters and dagger flag are ONE shared
+    instance, within a program and across all programs built with the same cache."""
     from strawberryfields import ops
+    key = None
+    if op_cache is not None and not any(isinstance(p, dict) and "mat" not in p for p in op.get("pars", [])):
+        key = repr((op["cls"], op.get("pars"), op.get("select"), bool(op.get("dagger"))))
+        if key in op_cache:
+            return op_cache[key]
     cls = getattr(ops, op["cls"])
     pars = []
     for p in op.get("pars", []):
@@ -66,19 +73,59 @@ def make_op(op, q=None, free=None):
     o = cls(*pars, **kw)
     if op.get("dagger"):
         o = o.H
+    if key is not None:
+        op_cache[key] = o
     return o
 
 
-def build(spec, name="p"):
+def build(spec, name="p", op_cache=None):
+    """spec ops "Del" (regs = modes to delete) and "New" (regs = indices the new modes receive) give registers
+    with holes: subsystem index != position in `prog.register`"""
     import strawberryfields as sf
+    from strawberryfields import ops
     prog = sf.Program(spec["n"], name=name)
     free = {nm: prog.params(nm) for nm in free_names(spec)}
     with prog.context as q:
+        q = list(q)
         for op in spec["ops"]:
-            o = make_op(op, q, free)
+            if op["cls"] == "Del":
+                regs = [q[i] for i in op["regs"]]
+                ops.Del | (regs if len(regs) > 1 else regs[0])
+                continue
+            if op["cls"] == "New":
+                q += list(ops.New(len(op["regs"])))
+                continue
+            o = make_op(op, q, free, op_cache)
             regs = [q[i] for i in op["regs"]]
             o | (regs if len(regs) > 1 else regs[0])
     return prog, list(prog.circuit)
+
+
+def with_holes(rng, spec):
+    """delete one or two modes somewhere after their last use (the later commands then act on a register whose
+    positions differ from the subsystem indices), possibly create new modes afterwards and use them"""
+    ops_ = [dict(o) for o in spec["ops"]]
+    n = spec["n"]
+    if n < 2:
+        return spec
+    ds = rng.sample(range(n), 2 if (n >= 3 and rng.random() < 0.4) else 1)
+    last = -1
+    for i, o in enumerate(ops_):
+        if set(ds) & set(list(o["regs"]) + op_deps(o)):
+            last = i
+    t = rng.randint(last + 1, len(ops_))
+    ops_.insert(t, dict(cls="Del", regs=ds, pars=[]))
+    if rng.random() < 0.6:
+        t2 = rng.randint(t + 1, len(ops_))
+        new = list(range(n, n + rng.randint(1, 2)))
+        ops_.insert(t2, dict(cls="New", regs=new, pars=[]))
+        for m in new:
+            pos = rng.randint(t2 + 1, len(ops_))
+            r = rng.choice([0.25, -0.25, 0.125])
+            ops_.insert(pos, dict(cls="Sgate", regs=[m], pars=[r, 0.0]))
+            if rng.random() < 0.7:
+                ops_.insert(pos + 1, dict(cls="Sgate", regs=[m], pars=[rng.choice([r, -r, 0.125]), 0.0]))
+    return dict(n=n, ops=ops_)
 
 
 # ------------------------------------------------------------------ spec -> model
@@ -105,7 +152,7 @@ def par_to_model(p, names):
 
 def op_to_cmd(op, ident, names):
     pars = []
-    cls = op["cls"]
+    cls = {"Del": "_Delete", "New": "_New_modes"}.get(op["cls"], op["cls"])
     src = op.get("pars", [])
     if cls == "Gaussian":      # Gaussian(V, r): only what the merge rule looks at matters (nothing)
         src = src[:1]
@@ -283,10 +330,6 @@ def gen_spec(rng, n, length, flavour="gaussian", p_sym=0.0, p_measured=0.0, matr
     g2 = [c for c in GATES2 if flavour != "gaussian" or c not in NON_GAUSSIAN]
     if flavour == "fock":
         g2 = [c for c in g2 if c not in ("MZgate", "sMZgate")]
-        # the truncated cubic phase gate is unitary (no trace loss) but leaves polynomial tails up to the cutoff,
-        # so sequences like V D D V† do not converge with the cutoff; its additivity is checked exactly by the
-        # merge-law oracle instead (V V = V there, no other gate after it)
-        g1 = [c for c in g1 if c != "Vgate"]
     preps = [c for c in PREPS if flavour != "gaussian" or c not in NON_GAUSSIAN]
     sym_classes = {c for c in list(g1) + list(g2) if c != "Fouriergate" and rng.random() < p_sym}
     ops, measured = [], []
@@ -309,9 +352,11 @@ def gen_spec(rng, n, length, flavour="gaussian", p_sym=0.0, p_measured=0.0, matr
                             op["pars"][0] = dict(f=p0["f"], k=(-p0["k"] if u < 0.4 else rng.choice([1, -1, 2, 0.5, -0.5])))
                     else:
                         flip = prev.get("dagger", False)
-                        if u < 0.3:
+                        if u < 0.12:
+                            pass                      # exact duplicate (one shared instance under op_cache)
+                        elif u < 0.4:
                             op["pars"][0] = -p0
-                        elif near and u < 0.38:
+                        elif near and u < 0.47:
                             op["pars"][0] = -p0 + 2.0 ** -22
                         else:
                             op["pars"][0] = first_par(rng, cls, small)
